@@ -90,7 +90,7 @@ func vxH11(nfids int, w int, kind0 int, kind1 int, maxpend int, midframe bool) {
 	vxAssert(kit.ops.closed == 1, "connection-reported-closed-exactly-once")
 	if vxSymbolic() {
 		// a lock held while the implementation is told of the open/close/destroy stalls every other connection
-		vxAssert(kit.ops.lockViol == 0, "implementation-notified-without-a-framework-lock-held")
+		vxAssertE(kit.ops.lockViol == 0, "implementation-notified-without-a-framework-lock-held")
 	}
 	for _, f := range valid {
 		vxAssert(kit.ops.ndestroyed(f) >= 1, "fid-valid-at-disconnect-reported-destroyed")
